@@ -279,7 +279,7 @@ Definition unpack_message_value (d : nat) (message : reader) : res msg :=
     o <- unpack_op d (t_num (h_tag h)) pr ;;
     (* MS-ADTS responseName [10] outside the protocolOp *)
     let o := match o, snd st with
-             | ExtendedResponse res name value, Some (_ :: _ as rn) =>
+             | ExtendedResponse res name value, Some ((_ :: _) as rn) =>
                  match name with
                  | None | Some [] => ExtendedResponse res (Some rn) value
                  | _ => o
